@@ -836,7 +836,7 @@ class ktensor:
         other_tensor = other
 
         self.normalize()
-        other_tensor = other_tensor.normalize()
+        other_tensor = other_tensor.copy().normalize()
 
         N = self.ndims
         RA = self.ncomponents
@@ -1892,8 +1892,7 @@ class ktensor:
         """
         if mode is not None:
             if isinstance(mode, int) and mode in range(self.ndims):
-                self.normalize(mode)
-                return self.factor_matrices.copy()
+                return self.copy().normalize(mode).factor_matrices
             assert False, "Input parameter'mode' must be in the range of self.ndims"
 
         # all weights are equal to 1
